@@ -9,8 +9,8 @@
 package c04
 
 import (
-	"errors"
 	"bytes"
+	"errors"
 	"fmt"
 	"math"
 	"sort"
